@@ -33,6 +33,21 @@ func (w *recWriter) Write(p []byte) (int, error) {
 	return w.buf.Write(p)
 }
 
+// withSpare puts the caller's bytes into a larger backing array (as a sub-slice of a bigger buffer would be): the
+// bytes behind the slice belong to the caller too and must not be touched
+func withSpare(b []byte) ([]byte, int) {
+	if b == nil {
+		return nil, 0
+	}
+	const spare = 64
+	back := make([]byte, len(b)+spare)
+	copy(back, b)
+	for i := len(b); i < len(back); i++ {
+		back[i] = 0x5a
+	}
+	return back[:len(b)], spare
+}
+
 type muxOp struct {
 	Add    json.RawMessage `json:"add"`
 	Remove *int            `json:"remove"`
@@ -105,8 +120,10 @@ func init() {
 				if op.Reuse && lastAF != nil {
 					d.AdaptationField = lastAF
 				}
-				payloadBefore := append([]byte{}, d.PES.Data...)
+				d.PES.Data, _ = withSpare(d.PES.Data)
+				payloadBefore := append([]byte{}, d.PES.Data[:cap(d.PES.Data)]...)
 				call("data", func() (int, error) { return m.WriteData(&d) })
+				d.PES.Data = d.PES.Data[:cap(d.PES.Data)]
 				lastAF = d.AdaptationField
 				if !bytes.Equal(payloadBefore, d.PES.Data) {
 					payloadOK = false
@@ -116,8 +133,10 @@ func init() {
 				if err := decode(op.Packet, &p); err != nil {
 					panic(err)
 				}
-				payloadBefore := append([]byte{}, p.Payload...)
+				p.Payload, _ = withSpare(p.Payload)
+				payloadBefore := append([]byte{}, p.Payload[:cap(p.Payload)]...)
 				call("packet", func() (int, error) { return m.WritePacket(&p) })
+				p.Payload = p.Payload[:cap(p.Payload)]
 				if !bytes.Equal(payloadBefore, p.Payload) {
 					payloadOK = false
 				}
